@@ -22,6 +22,8 @@ pub enum X {
     Between(Box<X>, bool, Box<X>, Box<X>),
     /// (expr, negated, pattern, escape char)
     Like(Box<X>, bool, Box<X>, Option<char>),
+    /// Postgres only: (expr, negated, pattern, escape char) through PgExpr::ilike / not_ilike
+    ILike(Box<X>, bool, Box<X>, Option<char>),
     In(Box<X>, bool, Vec<X>),
     IsNull(Box<X>, bool),
     /// function by upper-case SQL name common to all three dialects
@@ -178,6 +180,28 @@ impl X {
                     (p, None) => e.build().binary(op, p.build()),
                 }
             }
+            X::ILike(e, not, pat, esc) => {
+                use sea_query::extension::postgres::PgExpr;
+                let op = BinOper::PgOperator(if *not { PgBinOper::NotILike } else { PgBinOper::ILike });
+                match (&**pat, esc) {
+                    (X::Text(p), esc) => {
+                        let mut le = LikeExpr::new(p.as_str());
+                        if let Some(c) = esc {
+                            le = le.escape(*c);
+                        }
+                        if *not {
+                            PgExpr::not_ilike(e.build(), le)
+                        } else {
+                            PgExpr::ilike(e.build(), le)
+                        }
+                    }
+                    (p, Some(c)) => e.build().binary(
+                        op,
+                        SimpleExpr::Binary(Box::new(p.build()), BinOper::Escape, Box::new(SimpleExpr::Constant((*c).into()))),
+                    ),
+                    (p, None) => e.build().binary(op, p.build()),
+                }
+            }
             X::In(e, not, list) => {
                 let l: Vec<SimpleExpr> = list.iter().map(|x| x.build()).collect();
                 if *not {
@@ -294,6 +318,12 @@ impl X {
                 pat: Box::new(pat.expected(d)),
                 esc: esc.map(|c| Box::new(PX::Str(c.to_string()))),
             },
+            X::ILike(e, not, pat, esc) => PX::Like {
+                op: if *not { "NOT ILIKE".into() } else { "ILIKE".into() },
+                e: Box::new(e.expected(d)),
+                pat: Box::new(pat.expected(d)),
+                esc: esc.map(|c| Box::new(PX::Str(c.to_string()))),
+            },
             X::In(e, not, list) => {
                 if list.is_empty() {
                     // documented encoding of the empty list
@@ -364,7 +394,7 @@ impl X {
             X::Not(e) | X::IsNull(e, _) | X::Cast(e, _) => vec![e],
             X::Bin(l, _, r) => vec![l, r],
             X::Between(e, _, lo, hi) => vec![e, lo, hi],
-            X::Like(e, _, p, _) => vec![e, p],
+            X::Like(e, _, p, _) | X::ILike(e, _, p, _) => vec![e, p],
             X::In(e, _, l) => std::iter::once(&**e).chain(l.iter()).collect(),
             X::Func(_, a) | X::Tuple(a) => a.iter().collect(),
             X::Case(w, e) => w
@@ -384,6 +414,7 @@ impl X {
             X::Bin(_, op, _) => op_name(d, op),
             X::Between(_, n, _, _) => if *n { "NOT BETWEEN" } else { "BETWEEN" }.into(),
             X::Like(_, n, _, e) => format!("{}LIKE{}", if *n { "NOT " } else { "" }, if e.is_some() { "+ESC" } else { "" }),
+            X::ILike(_, n, _, e) => format!("{}ILIKE{}", if *n { "NOT " } else { "" }, if e.is_some() { "+ESC" } else { "" }),
             X::In(_, n, l) => format!("{}IN{}", if *n { "NOT " } else { "" }, if l.is_empty() { "()" } else { "" }),
             X::IsNull(_, n) => if *n { "IS NOT NULL" } else { "IS NULL" }.into(),
             X::Func(n, _) => format!("{n}()"),
